@@ -65,6 +65,13 @@ class C13(Prop):
             else:
                 dtype, vals, enum = tc.gen_string_feature(rng, n)
                 yield {"stream": "string", "kind": dtype, "n_bins": nb, "method": rng.choice(tc.ALL_METHODS), "feature": vals, "enum": enum}
+        for pooled in ([10, 20, 30, 100, 110] if tier == "quick" else [10, 20, 30, 40, 100, 110, 200, 1000, 1010]):
+            # 'other k' with k a multiple of ten (trailing zeros of the formatted count), k = pooled
+            nb = rng.choice([2, 3])
+            keep = nb - 1
+            vals = [f"c{i:04d}" for i in range(pooled + keep)] + [f"c{i:04d}" for i in range(keep)] * 2
+            rng.shuffle(vals)
+            yield {"stream": "string", "kind": rng.choice(["str", "cat"]), "n_bins": nb, "method": "sturges", "feature": vals, "enum": None}
         if tier == "thorough":
             for m in (1100, 2500):
                 vals = [f"c{i:04d}" for i in range(m)] + ["c0000", "c0001", "c0001"]
